@@ -28,13 +28,17 @@ def rankSpec (k : List Slot) (hs : List DHandler) (args : List (Slot × DVal)) :
     * `static`: a non-dependent declared type accepts the value (guaranteed by the type-level stage, C13);
     * `check`: for a value-dependent declared type the generated check agrees with `isinstance` and does not raise
       (`C11_codegen_*` establish this for the built-in value types inside their bound);
-    * `hashable`: values looked up in a Literal table are hashable -/
+    * `hashable`: an unhashable value is not (equal to) a key of a Literal of the rank — the keys of a Literal
+      table are hashable.  An unhashable *argument* as such is fine: the table lookup falls through, as
+      `rankSpec` says.  (Before the repair of finding D32 the lookup raised, and this field had to ask for
+      `∀ a ∈ args, a.2.eq < unhashableFrom`, which implies the present one.) -/
 structure RankOK (k : List Slot) (hs : List DHandler) (args : List (Slot × DVal)) : Prop where
   present : ∀ s ∈ k, ∃ v, argAt args s = some v
   static : ∀ h ∈ hs, ∀ s ∈ k, (dTyAt h s).isDep = false → ∀ v, argAt args s = some v → isinstanceOf W (dTyAt h s) v = .yes
   check : ∀ h ∈ hs, ∀ s ∈ k, (dTyAt h s).isDep = true → ∀ v, argAt args s = some v →
             genCheck W (dTyAt h s) v = isinstanceOf W (dTyAt h s) v ∧ genCheck W (dTyAt h s) v ≠ .raises
-  hashable : ∀ a ∈ args, a.2.eq < unhashableFrom
+  hashable : ∀ s ∈ k, ∀ v, argAt args s = some v → unhashableFrom ≤ v.eq →
+               ∀ h ∈ hs, ∀ ks b, dTyAt h s = .lit ks b → v.eq ∉ ks
   ids : (hs.map (·.1)).Nodup
 
 end
